@@ -19,7 +19,7 @@ Definition is_float_ty (o : option ty) : bool :=
 
 Fixpoint has_floats (e : expr) : bool :=
   match e with
-  | EIdent _ _ | ELit _ _ _ => false
+  | EIdent _ _ | ELit _ _ _ | EVarK _ _ _ | ESel _ _ _ _ | EConst _ _ => false
   | EParen x | EUnary _ x | ESliceAll x => has_floats x
   | EBinary _ l r => is_float_ty (typeof l) || is_float_ty (typeof r) || has_floats l || has_floats r
   | ECall _ args => (fix go (l : list expr) : bool := match l with [] => false | x :: r => has_floats x || go r end) args
@@ -210,7 +210,7 @@ Definition rewrite1_v (hf : bool) (e : expr) : expr :=
 Fixpoint simp_v (hf : bool) (e : expr) {struct e} : expr :=
   rewrite1_v hf
     match e with
-    | EIdent _ _ | ELit _ _ _ => e
+    | EIdent _ _ | ELit _ _ _ | EVarK _ _ _ | ESel _ _ _ _ | EConst _ _ => e
     | EParen x => EParen (simp_v hf x)
     | EUnary o x => EUnary o (simp_v hf x)
     | EBinary o l r => EBinary o (simp_v hf l) (simp_v hf r)
@@ -223,7 +223,7 @@ Fixpoint simp_v (hf : bool) (e : expr) {struct e} : expr :=
 (* the node with already simplified children, i.e. what the post function sees *)
 Definition rebuild_v (hf : bool) (e : expr) : expr :=
   match e with
-  | EIdent _ _ | ELit _ _ _ => e
+  | EIdent _ _ | ELit _ _ _ | EVarK _ _ _ | ESel _ _ _ _ | EConst _ _ => e
   | EParen x => EParen (simp_v hf x)
   | EUnary o x => EUnary o (simp_v hf x)
   | EBinary o l r => EBinary o (simp_v hf l) (simp_v hf r)
@@ -236,7 +236,7 @@ Definition rebuild_v (hf : bool) (e : expr) : expr :=
 Fixpoint all_nodes_v (g : expr -> bool) (hf : bool) (e : expr) {struct e} : bool :=
   g (rebuild_v hf e) &&
   match e with
-  | EIdent _ _ | ELit _ _ _ => true
+  | EIdent _ _ | ELit _ _ _ | EVarK _ _ _ | ESel _ _ _ _ | EConst _ _ => true
   | EParen x | EUnary _ x | ESliceAll x => all_nodes_v g hf x
   | EBinary _ l r => all_nodes_v g hf l && all_nodes_v g hf r
   | ECall _ args => (fix go (l : list expr) : bool := match l with [] => true | x :: r => all_nodes_v g hf x && go r end) args
@@ -255,8 +255,8 @@ Definition simplify_bool (e : expr) : expr := simp (has_floats e) e.
 (* ---- go/printer (nodes.go: expr1, binaryExpr, cutoff, walkBinary) on the fragment, single line ---- *)
 Definition prec_of (o : binop) : nat :=
   match o with
-  | OMul | OQuo | ORem => 5
-  | OAdd | OSub => 4
+  | OMul | OQuo | ORem | OShl | OShr | OAnd | OAndNot => 5
+  | OAdd | OSub | OOr | OXor => 4
   | OEq | ONe | OLt | OLe | OGt | OGe => 3
   | OLAnd => 2
   | OLOr => 1
@@ -266,6 +266,7 @@ Definition binop_str (o : binop) : string :=
   | OAdd => "+" | OSub => "-" | OMul => "*" | OQuo => "/" | ORem => "%"
   | OEq => "==" | ONe => "!=" | OLt => "<" | OLe => "<=" | OGt => ">" | OGe => ">="
   | OLAnd => "&&" | OLOr => "||"
+  | OAnd => "&" | OOr => "|" | OXor => "^" | OShl => "<<" | OShr => ">>" | OAndNot => "&^"
   end.
 Definition unop_str (o : unop) : string := match o with UNot => "!" | UNeg => "-" end.
 
@@ -275,6 +276,13 @@ Definition prim_name (p : prim) : string :=
   | PStrIndex => "strings.Index" | PStrContains => "strings.Contains" | PStrCompare => "strings.Compare"
   | PBytesEqual => "bytes.Equal" | PJoin2 => "strings.Join" | PJoin3 => "strings.Join"
   | PUnix => "Unix" | PUnixNano => "UnixNano" | PUnixMilli => "UnixMilli" | PUnixMicro => "UnixMicro"
+  | PStrHasPrefix => "strings.HasPrefix" | PStrHasSuffix => "strings.HasSuffix" | PStrLastIndex => "strings.LastIndex"
+  | PStrEqualFold => "strings.EqualFold" | PStrToLower => "strings.ToLower" | PStrToUpper => "strings.ToUpper"
+  | PStrIndexAny => "strings.IndexAny" | PStrContainsAny => "strings.ContainsAny"
+  | PStrReplace => "strings.Replace" | PStrReplaceAll => "strings.ReplaceAll"
+  | PBytesIndex => "bytes.Index" | PBytesContains => "bytes.Contains" | PBytesCompare => "bytes.Compare"
+  | PBytesHasPrefix => "bytes.HasPrefix" | PBytesHasSuffix => "bytes.HasSuffix" | PBytesLastIndex => "bytes.LastIndex"
+  | PBytesEqualFold => "bytes.EqualFold" | PBytesReplace => "bytes.Replace" | PBytesReplaceAll => "bytes.ReplaceAll"
   end.
 Definition fn_name (f : fn) : string :=
   match f with FOpaque n _ => n | FPrim p => prim_name p end.
@@ -344,6 +352,9 @@ Fixpoint print1 (e : expr) (prec1 depth : nat) {struct e} : string :=
       fn_name f ++ "(" ++ join_sep ", " (map (fun a => print1 a 0 d) args) ++ ")"
   | EIndex a i => print1 a 7 1 ++ "[" ++ print1 i 0 (depth + 1) ++ "]"
   | ESliceAll a => print1 a 7 1 ++ "[:]"
+  | EVarK x _ _ => x
+  | ESel x f _ _ => x ++ "." ++ f
+  | EConst x _ => x
   end.
 
 Definition print_expr (e : expr) : string := print1 e 0 1.
@@ -368,7 +379,7 @@ Definition check_expr (e : expr) : option string :=
    context type through parentheses but not into a constant unary/binary expression (updateExprType). *)
 Fixpoint is_const_expr (e : expr) : bool :=
   match e with
-  | ELit _ _ _ => true
+  | ELit _ _ _ | EConst _ _ => true
   | EParen x | EUnary _ x => is_const_expr x
   | EBinary _ l r => is_const_expr l && is_const_expr r
   | _ => false
@@ -381,7 +392,7 @@ Fixpoint walk_exprs_from (pc : bool) (e : expr) {struct e} : list string :=
   | Some m => [m]
   | None =>
       match e with
-      | EIdent _ _ | ELit _ _ _ => []
+      | EIdent _ _ | ELit _ _ _ | EVarK _ _ _ | ESel _ _ _ _ | EConst _ _ => []
       | EParen x => walk_exprs_from pc x     (* the context's type is propagated through parentheses *)
       | EUnary _ x => walk_exprs_from (is_const_expr e) x
       | ESliceAll x => walk_exprs_from false x
